@@ -844,7 +844,14 @@ class Client:
             return
         assert self.pending_response is not None
 
-        response = SDP_PDU.from_bytes(pdu)
+        try:
+            response = SDP_PDU.from_bytes(pdu)
+        except Exception as error:
+            # Not an SDP PDU: fail the pending request instead of leaving it (and the
+            # request semaphore) waiting forever
+            logger.warning('failed to parse SDP response PDU')
+            self.pending_response.set_exception(error)
+            return
 
         # Check that the transaction ID is what we expect
         if self.pending_request.transaction_id != response.transaction_id:
